@@ -109,6 +109,11 @@ class ORMatic:
     def _create_wrapped_tables(self):
         for wrapped_clazz in self.wrapped_classes_in_topological_order:
 
+            # an alternative mapping that an earlier ORMatic added to the same class diagram stands for the class
+            # it maps, it gets no table of its own
+            if issubclass(wrapped_clazz.clazz, AlternativeMapping):
+                continue
+
             # check if the class has an alternative mapping
             if alternative_mapping := self.get_alternative_mapping(wrapped_clazz):
                 # add the alternative mapping
@@ -151,6 +156,12 @@ class ORMatic:
         Add alternative mappings to the class diagram.
         """
         for alternative_mapping in self.alternative_mappings:
+            try:
+                # already there when the class diagram was used by an ORMatic before
+                self.class_dependency_graph.get_wrapped_class(alternative_mapping)
+                continue
+            except ClassIsUnMappedInClassDiagram:
+                pass
             wrapped_alternative_mapping = WrappedClass(clazz=alternative_mapping)
             self.class_dependency_graph.add_node(wrapped_alternative_mapping)
             self.class_dependency_graph.add_relation(
